@@ -329,3 +329,179 @@ Fixpoint kguard (am : arr_opt) (hm : aoh_opt) (a b : node) {struct a} : bool :=
 (* the configuration selects the same pair of modes at every list *)
 Definition uniform (cfg : dcfg) (am : arr_opt) (hm : aoh_opt) : Prop :=
   (forall nc, array_diff_mode cfg nc = Ok am) /\ (forall nc, aoh_diff_mode cfg nc = Ok hm).
+
+(* ==================================================================== *)
+(* ARBITRARY resolved configurations ([rules] choose the modes per list,
+   [keys] the identity keys per list / per record).
+
+   The reading of one pair of sequences is chosen by the configuration's own
+   lookup at the coordinates of the RIGHT-hand list (node, parent, parentref) -
+   the three things DifferConfig._get_config_for compares.  [par] / [pref] are
+   those coordinates, threaded exactly as the comparison passes them down: the
+   right-hand container and the key / element index of the right-hand child (for
+   an element of a positionally compared list the code passes the index AFTER
+   its `idx += 1`, i.e. position + 1: kept as it is).  A lookup that raises
+   (a mode name from_str rejects) gives no reading: the comparison raises too. *)
+Definition cfg_list_mode (cfg : dcfg) (nc : coords) (rels : list node) : option lmode :=
+  let arr (d : bool) :=
+    match array_diff_mode cfg nc with
+    | Ok ArrPosition => Some (LPos d)
+    | Ok ArrValue => Some LValue
+    | _ => None
+    end in
+  match rels with
+  | NMap _ _ :: _ =>
+      match aoh_diff_mode cfg nc with
+      | Ok AohPosition => arr false
+      | Ok AohDpos => arr true
+      | Ok AohValue => Some LValue
+      | Ok AohKey => Some (LKey false)
+      | Ok AohDeep => Some (LKey true)
+      | _ => None
+      end
+  | _ => arr true
+  end.
+
+(* identity keys in force: the list's key (configured for the first right-hand
+   record or for the list, else that record's first key) and, per right-hand
+   record, a key configured for that very record *)
+Definition list_key (cfg : dcfg) (r : node) (rels : list node) : node :=
+  match rels with
+  | (NMap _ _ as r0) :: _ => fst (aoh_diff_key cfg (r0, Some r, PInt 0))
+  | _ => NLeaf (mkinfo 0 None false None) (PStr EmptyString)
+  end.
+Definition rec_key (cfg : dcfg) (r : node) (K0 : node) (ri : nat) (re : node) : node :=
+  let '(alt, is_user) := aoh_diff_key cfg (re, Some r, PInt (Z.of_nat ri)) in
+  if is_user && py_truthy (leaf_value alt) then alt else K0.
+
+(* what a record holds under a key *)
+Definition field (K : node) (x : node) : option node :=
+  match x with NMap _ kvs => assoc_key (leaf_value K) kvs | _ => None end.
+Definition has_field (K : node) (x : node) : bool :=
+  match field K x with Some _ => true | None => false end.
+
+(* left record [x] and right record [p] (index, record) carry the same identity:
+   [x] holds the list's key, and both hold equal data under the key in force for
+   the right-hand record *)
+Definition id_match (cfg : dcfg) (r : node) (K0 : node) (x : node) (p : nat * node) : bool :=
+  has_field K0 x &&
+  let K := rec_key cfg r K0 (fst p) (snd p) in
+  match field K (snd p), field K x with
+  | Some v, Some u => data_eq v u
+  | _, _ => false
+  end.
+
+Fixpoint equiv_c (cfg : dcfg) (a b : node) (par : option node) (pref : pyval) {struct a} : bool :=
+  match a, b with
+  | NMap i kvs, NMap j kvs' =>
+      tag_eqb (tag i) (tag j) && Nat.eqb (List.length kvs) (List.length kvs') &&
+      (fix go (l : list (node * node)) : bool :=
+         match l with
+         | [] => true
+         | kv :: r =>
+             existsb (fun kv' => py_eq (leaf_value (fst kv)) (leaf_value (fst kv'))
+                                 && equiv_c cfg (snd kv) (snd kv') (Some b) (leaf_value (fst kv'))) kvs'
+             && go r
+         end) kvs
+  | NSeq i els, NSeq j els' =>
+      tag_eqb (tag i) (tag j) &&
+      match cfg_list_mode cfg (b, par, pref) els' with
+      | Some (LPos true) =>
+          (fix go (n : nat) (l l' : list node) {struct l} : bool :=
+             match l, l' with
+             | [], [] => true
+             | x :: r, y :: r' => equiv_c cfg x y (Some b) (PInt (Z.of_nat (S n))) && go (S n) r r'
+             | _, _ => false
+             end) 0 els els'
+      | Some (LPos false) => forall2b data_eq els els'
+      | Some LValue => bag_eqb data_eq els els'
+      | Some (LKey d) =>
+          let K0 := list_key cfg b els' in
+          Nat.eqb (List.length els) (List.length els') &&
+          (fix go (l : list node) : bool :=
+             match l with
+             | [] => true
+             | x :: r =>
+                 existsb (fun p => id_match cfg b K0 x p &&
+                                   (if d then equiv_c cfg x (snd p) (Some b) (PInt (Z.of_nat (fst p)))
+                                    else data_eq x (snd p))) (enumerate els')
+                 && go r
+             end) els
+      | None => forall2b data_eq els els'   (* the lookup raises: so does the comparison *)
+      end
+  | _, _ => data_eq a b
+  end.
+
+(* ---- guard of finding F4 for an arbitrary configuration.  At every pair of
+   sequences the comparison reads by identity key:
+   (1) every right-hand record holds the list's key and the key in force for it;
+   (2) identities pair the records one to one: no left record matches two
+       right-hand records, no right-hand record is matched by two left records
+       (identity VALUES may be anything - scalars, sequences, mappings - they are
+       compared as data);
+   checked along the pairing the comparison makes: mapping values by key,
+   positional lists by position, value-synchronised lists along the greedy
+   strike-out (each left element with the first unused equal right element),
+   keyed lists (deep) by identity. ---- *)
+Definition at_most_one {A} (f : A -> bool) (l : list A) : bool :=
+  Nat.leb (List.length (filter f l)) 1.
+
+Definition keyed_pair (cfg : dcfg) (r : node) (els els' : list node) : bool :=
+  let K0 := list_key cfg r els' in
+  forallb (fun p => has_field K0 (snd p) && has_field (rec_key cfg r K0 (fst p) (snd p)) (snd p)) (enumerate els')
+  && forallb (fun x => at_most_one (id_match cfg r K0 x) (enumerate els')) els
+  && forallb (fun p => at_most_one (fun lx => id_match cfg r K0 (snd lx) p) (enumerate els)) (enumerate els').
+
+Fixpoint kguard_c (cfg : dcfg) (a b : node) (par : option node) (pref : pyval) {struct a} : bool :=
+  match a, b with
+  | NMap _ kvs, NMap _ kvs' =>
+      (fix go (l : list (node * node)) : bool :=
+         match l with
+         | [] => true
+         | kv :: r =>
+             forallb (fun kv' => if py_eq (leaf_value (fst kv)) (leaf_value (fst kv'))
+                                 then kguard_c cfg (snd kv) (snd kv') (Some b) (leaf_value (fst kv'))
+                                 else true) kvs'
+             && go r
+         end) kvs
+  | NSeq _ els, NSeq _ els' =>
+      match cfg_list_mode cfg (b, par, pref) els' with
+      | Some (LPos true) =>
+          (fix go (n : nat) (l l' : list node) {struct l} : bool :=
+             match l, l' with
+             | x :: r, y :: r' => kguard_c cfg x y (Some b) (PInt (Z.of_nat (S n))) && go (S n) r r'
+             | _, _ => true
+             end) 0 els els'
+      | Some (LPos false) => true
+      | Some LValue =>
+          (fix go (l : list node) (red : list (nat * node)) {struct l} : bool :=
+             match l with
+             | [] => true
+             | x :: r =>
+                 match extract_first (fun p => data_eq (snd p) x) red with
+                 | Some (p, red') => kguard_c cfg x (snd p) (Some b) (PInt (Z.of_nat (fst p))) && go r red'
+                 | None => go r red
+                 end
+             end) els (enumerate els')
+      | Some (LKey d) =>
+          keyed_pair cfg b els els' &&
+          (if d then
+             let K0 := list_key cfg b els' in
+             (fix go (l : list node) : bool :=
+                match l with
+                | [] => true
+                | x :: r =>
+                    forallb (fun p => if id_match cfg b K0 x p
+                                      then kguard_c cfg x (snd p) (Some b) (PInt (Z.of_nat (fst p)))
+                                      else true) (enumerate els')
+                    && go r
+                end) els
+           else true)
+      | None => true
+      end
+  | _, _ => true
+  end.
+
+(* the configuration never selects an identity-key mode *)
+Definition nokey_cfg (cfg : dcfg) : Prop :=
+  forall nc, aoh_diff_mode cfg nc <> Ok AohKey /\ aoh_diff_mode cfg nc <> Ok AohDeep.
